@@ -18,7 +18,7 @@ from vlib.modules import PyMod
 from props.c02 import grl_ok
 
 ID = "C11"
-BUDGET = {"quick": 192, "thorough": 4000}
+BUDGET = {"quick": 192, "thorough": 2400}
 RULE = (
     "models from vlib.modelgen with units, descriptions, multi-component tuples and trailing comments, biased "
     "to constant subtrees (exp(1), cos(1), sqrt(2)), Not(..) around every kind of boolean, nested conditionals, "
